@@ -14,7 +14,7 @@ RULE = ("headless sessions of the real Model (held Term, scripted command feeder
         "25% under forced schedules aimed at the reader-finish and matcher-finish windows; every recorded trace of shared-memory steps is "
         "replayed through the Lean transition system (must be accepted and predict every snapshot) and every quiescent snapshot of the REAL model is "
         "judged against filter(source, current query). non-trivial = >= 2 chunks or >= 1 query/command event, and >= 1 item; distinct by sha1")
-EXTRA_PROPS = ["SessionFG", "HeartBeatTables"]   # the same statements at READ granularity (Props/SessionFG.lean)
+EXTRA_PROPS = ["SessionFG", "HeartBeatTables", "C01Fair"]   # C01Fair: liveness under weak fairness; the same statements at READ granularity (Props/SessionFG.lean)
 ASSUMPTIONS = ["granularity: the theorems fg_* are proved for the system in which the heart-beat handler is split at every read of a foreign flag and other threads run between any two "
                "reads (Model/SessionFG.lean); what stays atomic there: the harvest (one critical section), restart_matcher (no matcher thread exists while it runs; reader pushes commute "
                "with it) and the user-event handlers (kill = store + join). Heart-beat iterations of the trace are replayed through the same fine-grained system in trace order (nothing moved)",
